@@ -22,6 +22,7 @@ type replayMeta struct {
 	File       string   `json:"file"`
 	Test       string   `json:"test"`
 	What       string   `json:"what"`
+	Edits      []overlayEdit `json:"overlay_edits"` // scheduling hooks spliced into a copy of the current source (overlay only)
 	dir        string
 	model      string
 }
@@ -58,6 +59,13 @@ func findReplayTemplate(obligation string) *replayMeta {
 		}
 	}
 	return fallback
+}
+
+type overlayEdit struct {
+	File    string `json:"file"` // relative to the module dir
+	Find    string `json:"find"`
+	Replace string `json:"replace"`
+	Append  string `json:"append"`
 }
 
 type replayOutcome struct {
@@ -131,7 +139,26 @@ func runReplay(rm *replayMeta, workDir string) replayOutcome {
 	target := filepath.Join(modDir, rm.Pkg, rm.File)
 	os.MkdirAll(workDir, 0o755)
 	ov := filepath.Join(workDir, "overlay_"+sanitize(rm.Test)+".json")
-	ovData, _ := json.Marshal(map[string]any{"Replace": map[string]string{target: src}})
+	repl := map[string]string{target: src}
+	for i, ed := range rm.Edits {
+		orig := filepath.Join(modDir, ed.File)
+		data, err := os.ReadFile(orig)
+		if err != nil {
+			return replayOutcome{Output: "overlay edit: " + err.Error()}
+		}
+		text := string(data)
+		if ed.Find != "" {
+			if !strings.Contains(text, ed.Find) {
+				return replayOutcome{Output: "the program point this scenario hooks no longer exists in " + ed.File + " (window closed or code restructured)"}
+			}
+			text = strings.Replace(text, ed.Find, ed.Replace, 1)
+		}
+		text += ed.Append
+		hooked := filepath.Join(workDir, fmt.Sprintf("hooked_%d_%s", i, filepath.Base(ed.File)))
+		os.WriteFile(hooked, []byte(text), 0o644)
+		repl[orig] = hooked
+	}
+	ovData, _ := json.Marshal(map[string]any{"Replace": repl})
 	os.WriteFile(ov, ovData, 0o644)
 	pkgArg := "./" + rm.Pkg
 	if rm.Pkg == "." || rm.Pkg == "" {
